@@ -27,13 +27,15 @@ SESSION_RUNS = {
                 ["-worlds", "hostile", "-mode", "both", "-sample", "1.0", "-radius", "40"]),
     "tf-prefix": (["-worlds", "tf,tfbad", "-mode", "prefix", "-stride", "6", "-tail", "48"],
                   ["-worlds", "tf,tfbad", "-mode", "prefix", "-stride", "1", "-tail", "400"]),
+    "mods": (["-worlds", "mods,modsbroken", "-mode", "both", "-sample", "0.05", "-radius", "16", "-stride", "3"],
+             ["-worlds", "mods,modsbroken", "-mode", "both", "-sample", "1.0", "-radius", "40"]),
     "tf-edits": (["-worlds", "tf,tfbad", "-mode", "edits", "-sample", "0.004", "-radius", "12"],
                  ["-worlds", "tf,tfbad", "-mode", "edits", "-sample", "0.15", "-radius", "32"]),
 }
 
 SESSION_PLAN = {
-    "C01": ["kinds-prefix", "kinds-edits", "hostile", "tf-prefix", "tf-edits"],
-    "C02": ["kinds-prefix", "kinds-edits", "hostile", "tf-prefix", "tf-edits"],
+    "C01": ["kinds-prefix", "kinds-edits", "hostile", "mods", "tf-prefix", "tf-edits"],
+    "C02": ["kinds-prefix", "kinds-edits", "hostile", "mods", "tf-prefix", "tf-edits"],
     "C06": ["kinds-prefix", "kinds-edits", "tf-prefix"],
     "C12": ["kinds-prefix", "kinds-edits", "tf-prefix"],
     "C13": ["kinds-prefix", "kinds-edits", "hostile", "tf-prefix", "tf-edits"],
